@@ -529,6 +529,15 @@ func seeds() []seed {
 	add("avif-items-min-MM", "avif", gen.EncodeBoxes(avifBoxes(gen.EncodeTIFF(min, gen.CanonicalLayout(), MM, gen.AllDirs), "avif")))
 	add("heic-items-two-mdat-II", "heif", gen.EncodeBoxes(avifBoxesVariant(gen.EncodeTIFF(min, gen.CanonicalLayout(), II, gen.AllDirs), "heic", 1)))
 	add("avif-items-two-mdat-MM", "avif", gen.EncodeBoxes(avifBoxesVariant(gen.EncodeTIFF(min, gen.CanonicalLayout(), MM, gen.AllDirs), "avif", 1)))
+	{ // stray bytes and fill bytes in front of the Exif segment (the scanner resynchronises; where the source's reads end must not matter)
+		e := gen.SegExif(gen.EncodeTIFF(min, gen.CanonicalLayout(), MM, gen.AllDirs))
+		e.Junk = 63
+		d, _ := gen.BuildJPEG([]gen.Seg{e, gen.SegXMP(xp[:300])}, true)
+		add("jpeg-63-stray-bytes-before-exif", "jpeg", d)
+		e.Junk, e.Fill = 0, 63
+		d, _ = gen.BuildJPEG([]gen.Seg{gen.SegJFIF(), e}, true)
+		add("jpeg-63-fill-bytes-before-exif", "jpeg", d)
+	}
 	add("xmp-sidecar", "xmp", &gen.Doc{B: xp})
 	{ // token-dense packets: one look-ahead per attribute / element, many of them inside the final buffer
 		dx := denseXMP(120)
